@@ -104,7 +104,7 @@ for kind in ("STR", "PREFIX", "STR_NOACCENT", "PREFIX_NOACCENT"):
       functions=["compare_" + kind.lower()], chars=("signed", "unsigned"), props=["C08", "C19"], timeout=900)
 
 for kind, nl in (("STR", 2), ("PREFIX", 2), ("STR_NOACCENT", 4), ("PREFIX_NOACCENT", 7)):
-    U(name="U.cmp." + kind.lower(), harness="harness/cmp_safe.c", mode="H", loops=True, profiles=["cmp"],
+    U(name="U.cmp." + kind.lower(), harness="harness/cmp_safe.c", mode="H", loops=True, profiles=["cmp"], weave_functions=["compare_" + kind.lower()],
       defines=["CMP_" + kind], functions=["compare_" + kind.lower()], loop_contracts=["compare_" + kind.lower()],
       expect_loop_obligations=nl, chars=("signed", "unsigned"), props=["C14", "C08", "C19"], timeout=900)
 
@@ -168,17 +168,17 @@ U(name="B.str.nfkd_lazy", harness="harness/str_nfkd_lazy_b.c", mode="P", unwind=
 # 64 bytes); the two accent-skipping comparers need ghost count / stripped-string arrays and are run with a key
 # object of 64 bytes in the quick tier (bounded in the key length) and of POLYSEED_STR_SIZE bytes in the thorough tier.
 for kind, nl in (("STR", 2), ("PREFIX", 3)):
-    U(name="U.cmpf." + kind.lower(), harness="harness/cmp_rule.c", mode="H", loops=True, profiles=["cmpf"],
+    U(name="U.cmpf." + kind.lower(), harness="harness/cmp_rule.c", mode="H", loops=True, profiles=["cmpf"], weave_functions=["compare_" + kind.lower()],
       defines=["CMP_" + kind], functions=["compare_" + kind.lower(), "compare_" + kind.lower() + "_wrap"], loop_contracts=["compare_" + kind.lower()],
       expect_loop_obligations=nl, chars=("signed", "unsigned"), unwind=POLYSEED_STR_SIZE_PLUS1, props=["C08", "C07", "C19"], timeout=1800,
       note="key object 1..POLYSEED_STR_SIZE bytes, element object 1..64 bytes (T.wordlen), all byte values")
 for kind, nl in (("STR_NOACCENT", 6), ("PREFIX_NOACCENT", 12)):
-    U(name="U.cmpf." + kind.lower(), harness="harness/cmp_rule.c", mode="H", loops=True, profiles=["cmpf"],
+    U(name="U.cmpf." + kind.lower(), harness="harness/cmp_rule.c", mode="H", loops=True, profiles=["cmpf"], weave_functions=["compare_" + kind.lower()],
       defines=["CMP_" + kind, "CMP_KOBJ=64", "CMP_EOBJ=16", "FIXED_OBJ"], functions=["compare_" + kind.lower(), "compare_" + kind.lower() + "_wrap"],
       loop_contracts=["compare_" + kind.lower()], expect_loop_obligations=nl, chars=("signed", "unsigned"), unwind=POLYSEED_STR_SIZE_PLUS1,
       bounded="key of at most 63 bytes (all byte values, any number of accent bytes); list element of at most 15 bytes (closed fact T.wordlen: every Spanish/French word is shorter); loops closed by invariants, not unrolled",
       props=["C08", "C07", "C19"], timeout=1800, mem_gb=16)
-    U(name="U.cmpf." + kind.lower() + ".full", harness="harness/cmp_rule.c", mode="H", loops=True, profiles=["cmpf"], quick=False,
+    U(name="U.cmpf." + kind.lower() + ".full", harness="harness/cmp_rule.c", mode="H", loops=True, profiles=["cmpf"], quick=False, weave_functions=["compare_" + kind.lower()],
       defines=["CMP_" + kind, "CMP_EOBJ=16", "FIXED_OBJ"], functions=["compare_" + kind.lower(), "compare_" + kind.lower() + "_wrap"],
       loop_contracts=["compare_" + kind.lower()], expect_loop_obligations=nl, chars=("signed",), unwind=POLYSEED_STR_SIZE_PLUS1,
       note="key in an object as large as a polyseed_str (every token the decoders can produce), element object 16 bytes (T.wordlen)",
